@@ -29,6 +29,7 @@ import (
 	"path/filepath"
 	"strings"
 	"sync"
+	"unicode/utf8"
 
 	"go.uber.org/zap/zapcore"
 )
@@ -160,6 +161,13 @@ func (sr *sinkRegistry) newFileSinkFromPath(path string) (Sink, error) {
 
 func normalizeScheme(s string) (string, error) {
 	// https://tools.ietf.org/html/rfc3986#section-3.1
+	for i := 0; i < len(s); i++ {
+		// Lower-casing can map non-ASCII runes into the ASCII range, so
+		// reject them up front.
+		if s[i] >= utf8.RuneSelf {
+			return "", errors.New("must be ASCII")
+		}
+	}
 	s = strings.ToLower(s)
 	if first := s[0]; 'a' > first || 'z' < first {
 		return "", errors.New("must start with a letter")
